@@ -31,6 +31,17 @@
 #include <zck.h>
 #include "zck_private.h"
 #include "shim.h"
+/* the driver's own closes are not the library's: keep them out of the ownership accounting of the shim */
+#define close(fd) __real_close(fd)
+/* ThreadSanitizer builds: the harness's own file I/O must not synchronise the threads either (see shim.c) */
+#if defined(__has_feature)
+#if __has_feature(thread_sanitizer)
+#include <sys/syscall.h>
+#define __real_write(fd, b, n) syscall(SYS_write, (fd), (b), (n))
+#define pread(fd, b, n, o) syscall(SYS_pread64, (fd), (b), (n), (o))
+#define pwrite(fd, b, n, o) syscall(SYS_pwrite64, (fd), (b), (n), (o))
+#endif
+#endif
 
 #define NSLOT 16
 #define MAXTOK 64
@@ -228,6 +239,7 @@ struct thr { pthread_t t; char path[512]; int id; };
 static void run_lines(FILE *f);
 static __thread int in_thread;
 static void *thr_main(void *a) { struct thr *t = a; static __thread char tag[16]; snprintf(tag, sizeof tag, "/t%d", t->id); thr_tag = tag;
+    if(getenv("ZV_STAGGER_MS")) usleep(1000 * atoi(getenv("ZV_STAGGER_MS")) * t->id);     /* threads one after the other: the race verdict must not change */
     FILE *f = fopen(t->path, "r"); in_thread = 1; if(f) { run_lines(f); fclose(f); } return NULL; }
 
 /* ---------------------------------------------------------------- commands */
@@ -431,8 +443,7 @@ static void run_cmd(int ntok, char **tok) {
         }
         zckDL *dl = dls[d]; zckCtx *z = ctxs[c];
         zck_dl_reset(dl);
-        if(ranges[0]) zck_range_free(&ranges[0]);
-        zckRange *r = zck_get_missing_range(z, limit); ranges[0] = r;
+        zckRange *r = zck_get_missing_range(z, limit);      /* local: fetch may run in several threads at once (C19) */
         ev_begin("fetch"); ev_int("limit", limit);
         if(!r) { ev_int("ret", 0); ev_end(); }
         else {
@@ -442,7 +453,7 @@ static void run_cmd(int ntok, char **tok) {
             int nr = 0; for(zckRangeItem *it = r->first; it; it = it->next) nr++;
             if(nr == 0) { close(bfd); ev_int("ret", 1); ev_int("nranges", 0); ev_int("calls", 0); ev_int("okcalls", 0); ev_int("firstfail", -1);
                           ev_int("err", zck_is_error(z)); ev_valid(z); ev_int("missing", zck_missing_chunks(z)); ev_int("failed", zck_failed_chunks(z)); ev_end();
-                          (void)zck_dl_set_range(dl, NULL); zck_range_free(&ranges[0]); return; }
+                          (void)zck_dl_set_range(dl, NULL); zck_range_free(&r); return; }
             /* build the response */
             size_t cap = 4096; for(zckRangeItem *it = r->first; it; it = it->next) cap += (it->end - it->start + 1) + 512 + strlen(boundary);
             char *body = malloc(cap); size_t bl = 0; long payload_seen = 0;
@@ -491,7 +502,7 @@ static void run_cmd(int ntok, char **tok) {
             ev_end();
             free(body);
             (void)zck_dl_set_range(dl, NULL);
-            zck_range_free(&ranges[0]);
+            zck_range_free(&r);
         }
     }
     else if(!strcmp(op, "snapshot")) {
@@ -641,7 +652,7 @@ static void run_cmd(int ntok, char **tok) {
         } else {
             ev_begin("gdiff"); ev_raw(",\"changed\":["); int first = 1;
             for(int i = 0; i < gn; i++) if(memcmp(gcopy[i], gaddr[i], gsize[i])) { char tmp[96]; snprintf(tmp, sizeof tmp, "%s\"%s\"", first ? "" : ",", gname[i]); ev_raw(tmp); first = 0; memcpy(gcopy[i], gaddr[i], gsize[i]); }
-            ev_raw("]"); ev_int("static_bufs", shim_static_bufs); ev_end();
+            ev_raw("]"); ev_int("static_bufs", shim_static_bufs); ev_int("foreign_closes", shim_foreign_closes); ev_end();
         }
     }
     else if(!strcmp(op, "echo")) { ev_begin("echo"); ev_str("s", A(1)); ev_end(); }
@@ -652,12 +663,13 @@ static void run_line(char *line) {
     char *tok[MAXTOK]; int ntok = 0; char *sp = NULL;
     for(char *t = strtok_r(line, " \t\r\n", &sp); t && ntok < MAXTOK; t = strtok_r(NULL, " \t\r\n", &sp)) tok[ntok++] = t;
     if(ntok == 0 || tok[0][0] == '#') return;
-    if(in_thread) pthread_mutex_lock(&evmu);
-    /* note: with threads the lock serialises only the event buffer use around each command when
-     * VERIF_SERIALIZE is set; by default library calls of different threads run concurrently */
-    if(in_thread && !getenv("VERIF_SERIALIZE")) pthread_mutex_unlock(&evmu);
+    /* Threads never synchronise with each other in the harness (events go to thread-local buffers): a lock here
+     * would order the commands of different threads for the race detector and hide races between commands that
+     * do not happen to overlap in time.  VERIF_SERIALIZE=1 runs the commands one at a time (debugging only). */
+    int ser = in_thread && getenv("VERIF_SERIALIZE");
+    if(ser) pthread_mutex_lock(&evmu);
     run_cmd(ntok, tok);
-    if(in_thread && getenv("VERIF_SERIALIZE")) pthread_mutex_unlock(&evmu);
+    if(ser) pthread_mutex_unlock(&evmu);
 }
 
 static void run_lines(FILE *f) {
